@@ -267,6 +267,11 @@ func (p *ProofD) reconstructZ(pk *gabikeys.PublicKey) (*big.Int, error) {
 	numerator := new(big.Int).Lsh(big.NewInt(1), pk.Params.Le-1)
 	numerator.Exp(p.A, numerator, pk.N)
 	for i, attribute := range p.ADisclosed {
+		// Attributes are non-negative integers. (One longer than l_m is represented by the hash of
+		// its bytes, which do not include the sign: v and -v would both be accepted.)
+		if attribute.Sign() < 0 {
+			return nil, errors.New("negative disclosed attribute")
+		}
 		exp := attribute
 		if exp.BitLen() > int(pk.Params.Lm) {
 			exp = common.IntHashSha256(exp.Bytes())
